@@ -442,6 +442,7 @@ func (msti *MeasurementInfo) clone() *MeasurementInfo {
 	other.MarkDeleted = msti.MarkDeleted
 	other.EngineType = msti.EngineType
 	other.tagKeysTotal = msti.tagKeysTotal
+	other.ID = msti.ID
 
 	other.Schema = msti.CloneSchema()
 	other.ShardIdexes = msti.CloneShardIdexes()
